@@ -656,10 +656,12 @@ def gen_probe(pid, rng, types, forced=None):
         writers = ["pz"]
         if l2["k"] == "i":
             B.append("pl := &%s%s" % (z, sel(U, q2)))
+            B.append("_ = pl")
             writers.append("pl")
         if U["named"]:
             pr.top.append("func (y *%s) r%d() { y%s = %s }" % (Ugo, pid, sel(U, q2), setv(l2, 200)))
             B.append("fr := %s.r%d" % (z, pid))
+            B.append("_ = fr")
             writers.append("fr")
         form = rng.choice(["lit", "lit", "zero", "var", "result", "deref", "conv", "swap"])
         wrap = "closure" if tk == "captured" else rng.choice(["plain", "plain", "loop", "closure"])
